@@ -22,6 +22,11 @@ PALETTE = [("int", "int"), ("string", "str"), ("int64", "int"), ("uint8", "int")
            ("int32", "int"), ("uint", "int")]
 
 
+# further field types, opt-in per check (`types_extra`): arrays, pointer to pointer, nested containers, an anonymous struct,
+# a channel (sentinel = its capacity), a struct type of a package the generated file must import as well
+EXTRA_TYPES = ["[3]int", "**int", "[]map[string][]int", "struct{ X int }", "chan int", "url.URL", "*url.URL", "map[string]*Inner"]
+EXTRA_TYPES_JSON = ["[3]int", "**int", "[]map[string][]int", "map[string]*Inner"]
+
 REF_DEFS = {"[]string": "[]string{%s}", "[]int": "[]int{%d}", "map[string]int": 'map[string]int{"k": %d}',
             "*Inner": "&Inner{N: %d}", "[]*Inner": "[]*Inner{{N: %d}}"}
 
@@ -39,6 +44,9 @@ class NewGen:
 
     def pick_type(self, tparams):
         r = self.rng.random()
+        extra = getattr(self, "extra_types", None)
+        if extra and r > 0.9:
+            return (self.rng.choice(extra), None)
         if tparams and r < 0.25:
             names = [n for grp, _ in tparams for n in grp]
             return (self.rng.choice(names), None)
@@ -175,6 +183,7 @@ class NewGen:
             tparams = self.rng.choice([[(["K"], "comparable")], [(["K"], "comparable"), (["V"], "any")],
                                        [(["A", "B"], "any")], [(["V"], "any")]])
         self.used = {}
+        self.extra_types = o.get("types_extra")
         s = self.struct(name, 0, o, tparams)
         return s
 
@@ -394,6 +403,8 @@ def render_file(pkg, structs, extra_imports=(), case_id="x"):
         imports.add('"verifcases/c_%s/sub"' % case_id)
     if any(uses_type(s, "time.") for s in decls):
         imports.add('"time"')
+    if any(uses_type(s, "url.") for s in decls):
+        imports.add('"net/url"')
     if any("cmp." in c for s in decls for _, c in (s.get("tparams") or [])):
         imports.add('"cmp"')
     if any("fmt." in c for s in decls for _, c in (s.get("tparams") or [])):
